@@ -195,7 +195,10 @@ class SummaryActions(object):
       )
       for c in source_groupby_columns
     ]
-    summary_table = next((t for t in source_table.summaryTables if t.summaryKey == key), None)
+    # A summary table whose group-by source column was just removed keeps that column as a plain data
+    # column until the table is auto-removed at the end of the bundle; it must not be reused.
+    summary_table = next((t for t in source_table.summaryTables if t.summaryKey == key
+                          and all(c.isFormula or c.summarySourceCol for c in t.columns)), None)
     created = False
     if not summary_table:
       groupby_col_ids = [c.colId for c in groupby_colinfo]
